@@ -36,7 +36,9 @@ func ldContent(f ldFile) []byte {
 	for i := 0; i < 12; i++ {
 		ws = append(ws, fmt.Sprintf("w%s%c", strings.ToLower(id), 'a'+i))
 	}
-	return []byte(strings.Join(ws, " ") + "\n")
+	// the bytes of a file are the document: CRLF line ends (with a hyphen in front of one), a tab, bytes that are not
+	// UTF-8, a byte order mark, trailing blanks -- whatever LoadLicenses does to them, AddContent must be given the same
+	return []byte("\xef\xbb\xbf" + strings.Join(ws[:6], " ") + " hyph-\r\nenated " + strings.Join(ws[6:], " ") + "\r\nw" + strings.ToLower(id) + "tab\there \xff\xfe w" + strings.ToLower(id) + "end  \n")
 }
 
 const ldForeign = "a document of another directory that was registered by hand and is nobody's business here\n"
